@@ -20,7 +20,7 @@
    is remembered in the sticky flags wasc / fok.  A return that the design spec has no reason for is rejected with
    the name of the violated property. *)
 EXTENDS DKGSync, TraceCommon
-VARIABLES wasc,       \* [member -> inside startSyncProtocol: no error, every peer connected, seen at some point]
+VARIABLES wasc,       \* [member -> inside startSyncProtocol: no error, every peer connected, seen at some point (then kept)]
           fok,        \* [member -> waiting: no error and the faulty peer's report within the barrier, seen at some point]
           cans,       \* [member -> it was able to send its shutdown flags at some point (passed / could pass its final barrier)]
           expect,     \* [stream -> the answer the design spec gives to the message in flight on it]
@@ -41,7 +41,7 @@ ConnNow(S, i) == /\ S.serr[i] = "none" /\ "peererr" \notin S.cause[i]
 KOf(S, i) == IF S.phase[i] = "conn" THEN 1 ELSE S.step[i]
 FokNow(S, i) == S.serr[i] = "none" /\ \A f \in Faulty : S.rep[i][f] \in KOf(S, i)..(KOf(S, i) + Tol)
 \* the step counter of honest j as another member may already have seen it
-EffStep(j) == IF phase[j] = "conn" /\ wasc[j] THEN 1 ELSE step[j]
+EffStep(j) == IF step[j] = 0 /\ wasc[j] THEN 1 ELSE step[j]        \* (also when it failed / crashed in there afterwards)
 Views(i, j) == IF phase[j] = "idle" THEN {rep[i][j]} ELSE {rep[i][j]} \cup (Max(rep[i][j], 0)..EffStep(j))
 HonOK(i, k) == \A j \in Honest \ {i} : \E v \in Views(i, j) : v \in k..(k + Tol)
 MinView(i, j, k) == LET ok == {v \in Views(i, j) : v \in k..(k + Tol)} IN
@@ -50,7 +50,7 @@ Fixed(i, k) == [rep EXCEPT ![i] = [j \in Members |-> IF j \in Honest \ {i} THEN 
 \* honest j has sent (or is able to send) its shutdown flag: it passed, or can pass, its final barrier
 CanShut(j) == phase[j] \in {"closing", "down"} \/ (phase[j] = "stopwait" /\ fok[j] /\ HonOK(j, step[j]))
 
-Track == /\ wasc' = [i \in 1..4 |-> i \in Honest /\ StP.phase[i] = "conn" /\ (wasc[i] \/ ConnNow(StP, i))]
+Track == /\ wasc' = [i \in 1..4 |-> i \in Honest /\ (wasc[i] \/ (StP.phase[i] = "conn" /\ ConnNow(StP, i)))]      \* sticky
          /\ fok' = [i \in 1..4 |-> /\ i \in Honest /\ StP.phase[i] \in {"conn", "wait", "stopwait", "crashed"}
                                    /\ \/ fok[i] /\ (StP.phase[i] = phase[i] \/ StP.phase[i] = "crashed")   \* same call still pending
                                       \/ StP.phase[i] # "crashed" /\ FokNow(StP, i) /\ (StP.phase[i] = "conn" => wasc'[i])]
@@ -71,8 +71,17 @@ TCrash == /\ IsEvent("Crash") /\ Ev.i \in Honest
           /\ UNCHANGED <<expect, cancelled>> /\ Track
 TSkip == IsEvent("Skip") /\ UNCHANGED <<vars, expect, cancelled>> /\ Track
 TCancel == IsEvent("Cancel") /\ cancelled' = TRUE /\ UNCHANGED <<vars, expect>> /\ Track
+\* the member's Run is ending (its context is cancelled before the return is logged): the stream may already be dead
+Aborting(i) == serr[i] # "none" \/ ~ServerUp(i) \/ cancelled \/ (cfg.f # 0 /\ cfg.frej)
 TFOpen == /\ IsEvent("FOpen") /\ Ev.to \in Honest
-          /\ IF Ev.ok THEN FOpen(Ev.s, Ev.to) ELSE ~ServerUp(Ev.to) /\ UNCHANGED vars
+          /\ IF ~Ev.ok THEN Aborting(Ev.to) /\ UNCHANGED vars
+             ELSE IF \A x \in fst : x.s # Ev.s THEN FOpen(Ev.s, Ev.to)
+             ELSE \* the driver re-uses a stream id: it resets the old stream first (FClose, then FOpen)
+                  LET x == CHOOSE y \in fst : y.s = Ev.s IN
+                  /\ ServerUp(Ev.to)
+                  /\ fst' = (fst \ {x}) \cup {[s |-> Ev.s, to |-> Ev.to]}
+                  /\ conn' = [conn EXCEPT ![x.to] = @ \ {cfg.f}]
+                  /\ UNCHANGED <<cfg, phase, step, passed, cause, rep, shut, serr, valid, sent>>
           /\ UNCHANGED <<expect, cancelled>> /\ Track
 TFMsg == /\ IsEvent("FMsg")
          /\ LET m == Msg(Ev.auth, Ev.step, Ev.shutdown) IN
@@ -81,8 +90,6 @@ TFMsg == /\ IsEvent("FMsg")
                    /\ FMsg(Ev.s, m)
               ELSE expect' = [expect EXCEPT ![Ev.s] = "closed"] /\ UNCHANGED vars     \* the server had ended that stream
          /\ UNCHANGED cancelled /\ Track
-\* the member's Run is ending (its context is cancelled before the return is logged): the stream may already be dead
-Aborting(i) == serr[i] # "none" \/ ~ServerUp(i) \/ cancelled
 TFResp == /\ IsEvent("FResp")
           /\ Chk("ServerAnswer", Ev.resp = expect[Ev.s] \/ (Ev.resp = "closed" /\ Aborting(Ev.to)))
           /\ UNCHANGED <<vars, expect, cancelled>> /\ Track
